@@ -74,18 +74,41 @@ def proof_status(pid, theorems):
     return len(theorems), closed, problems, axioms
 
 
-def shrink(prop, script, fails):
-    """Greedy minimisation: drop frames while the failure persists."""
-    cur = script
-    changed = True
+def shrink(prop, script, fails, idx=None, budget=48):
+    """Minimisation under an evaluation budget: first the failing frame alone, then the prefix that ends with it,
+    then delta debugging (drop halves, quarters, ... single frames) while the failure persists."""
     keep_last = 1 if getattr(prop, "KEEP_LAST", False) else 0
-    while changed and len(cur.frames) > 1:
-        changed = False
-        for i in range(len(cur.frames) - keep_last):
-            cand = Script(cur.cfg, cur.frames[:i] + cur.frames[i + 1:], cur.tag)
-            if fails(cand):
-                cur, changed = cand, True
+    used = [0]
+
+    def ok(c):
+        if used[0] >= budget or not c.frames:
+            return False
+        used[0] += 1
+        return fails(c)
+
+    cur = script
+    if idx is not None and 0 <= idx < len(script.frames):
+        one = Script(script.cfg, [script.frames[idx]], script.tag)
+        if len(script.frames) > 1 and ok(one):
+            return one
+        pre = Script(script.cfg, script.frames[:idx + 1], script.tag)
+        if len(pre.frames) < len(cur.frames) and ok(pre):
+            cur = pre
+    n = 2
+    while len(cur.frames) > 1 and used[0] < budget:
+        body = len(cur.frames) - keep_last
+        size = max(1, body // n)
+        removed = False
+        for start in range(0, body, size):
+            cand = Script(cur.cfg, cur.frames[:start] + cur.frames[start + size:], cur.tag)
+            if cand.frames and len(cand.frames) < len(cur.frames) and ok(cand):
+                cur, removed = cand, True
+                n = max(n - 1, 2)
                 break
+        if not removed:
+            if size == 1:
+                break
+            n = min(n * 2, body)
     return cur
 
 
@@ -191,7 +214,7 @@ def main():
             def fails(c, i=i):
                 iss, _ = evaluate(prop, [c], [d for d in drivers if d[0] == i["driver"]])
                 return any(x["kind"] == "monitor" and x["monitor"] == i["monitor"] for x in iss)
-            small = shrink(prop, i["script"], fails)
+            small = shrink(prop, i["script"], fails, i.get("frame"))
             iss2, _ = evaluate(prop, [small], [d for d in drivers if d[0] == i["driver"]])
             i2 = next((x for x in iss2 if x["kind"] == "monitor"), i)
             violations.append((write_replay(pid, i2), ""))
